@@ -47,7 +47,8 @@ Decision: `return any(<test> for v in <dict>.values())` (generator or list compr
 Dispatchers (`wrapper(*args, **kwargs)` inside `symbolic_function(function)` decorated with `wraps(function)` and
 returned; `Predicate.__new__(cls, *args, **kwargs)`): docstring;
   `D = merge_args_and_kwargs(F, args, kwargs[, [ignore_first=]<bool>])`   F = `function` / `cls.__init__`
-  `inspect.signature(F').bind(*args, **kwargs)`  (binds the call as written first; F' = `function` / `cls`)
+  `inspect.signature(F').bind(*args, **kwargs)`  (binds the call as written first; F' = `function` / `cls`, or
+                                                  `inspect.signature(cls.__init__).bind(None, *args, **kwargs)`)
   `if [not] _any_of_the_kwargs_is_a_variable(<dict>): return R1` [`else: return R2`] … `return R2`
   R symbolic: `Variable(_type_=F', _kwargs_=<dict>, _predicate_type_=PredicateType.<expected>, _name__=…)`
   R concrete: `function(*<list>, **<dict>)` / `function(**<dict>)` / `super().__new__(cls[, *args, **kwargs])`
@@ -478,8 +479,12 @@ class _Dispatcher:
                 i += 1
                 continue
             if isinstance(s, ast.Expr) and isinstance(s.value, ast.Call):
-                want = f"inspect.signature({self.function if self.kind == 'fn' else 'cls'}).bind(*{self.args}, **{self.kwargs})"
-                if ast.unparse(s.value) != want:
+                a, k = self.args, self.kwargs
+                want = ([f"inspect.signature({self.function}).bind(*{a}, **{k})"] if self.kind == "fn" else
+                        [f"inspect.signature(cls).bind(*{a}, **{k})",
+                         f"inspect.signature(cls.__init__).bind(None, *{a}, **{k})",
+                         f"inspect.signature(cls.__init__).bind(cls, *{a}, **{k})"])
+                if ast.unparse(s.value) not in want:
                     raise TranslationError(f"unsupported statement {ast.unparse(s)}")
                 self.validated = True
                 i += 1
@@ -588,6 +593,7 @@ DEC_FALLBACK = """  have h : ∀ a : Arg, (fun v => DECISION_TEST) a = a.isVar :
 TEMPLATE = """import KrroodVerif.Props.C12
 import KrroodVerif.Drive.C12
 set_option linter.unusedVariables false
+set_option linter.unusedSimpArgs false
 /-! GENERATED by harness/translate/c12_translate.py from src/krrood/entity_query_language/predicate.py and
 symbolic.py — do not edit -/
 namespace KrroodVerif.Pred.Translated
@@ -636,11 +642,25 @@ theorem C12_decision_translated_eq_model (bindings : Dict Arg) :
 {dec_proof}
 
 /-- the two dispatchers of the current source are the model's `dispatch` under the quirk setting the correspondence
-uses for the code as it is — for every signature, every positional/keyword split and every argument pattern -/
-theorem C12_dispatch_translated_eq_model (c : Call) : dispatchT c = dispatch Drive.C12.codeQuirks c := by
-  cases hk : c.kind <;>
-    simp [dispatchT, hk, symbolic_function_wrapper, predicate_new, dispatch, Call.merged, Call.inspectedNames,
-      ignoreFirst, Drive.C12.codeQuirks, C12_merge_translated_eq_model, C12_decision_translated_eq_model]
+uses for the code as it is — for every signature, every positional/keyword split and every argument pattern — or
+under that setting with the open fix candidate F-C12-3 applied (the call is bound as written first), so that applying
+the repair to the source does not break the tie -/
+theorem C12_dispatch_translated_eq_model :
+    (∀ c : Call, dispatchT c = dispatch Drive.C12.codeQuirks c) ∨
+    (∀ c : Call, dispatchT c = dispatch {{ Drive.C12.codeQuirks with acceptsRejected := false }} c) := by
+  first
+  | (refine Or.inl (fun c => ?_)
+     cases hk : c.kind <;>
+       (simp only [dispatchT, hk, symbolic_function_wrapper, predicate_new, dispatch, Call.merged, Call.inspectedNames,
+          ignoreFirst, Drive.C12.codeQuirks, C12_merge_translated_eq_model, C12_decision_translated_eq_model,
+          Bool.not_true, Bool.not_false, Bool.false_and, Bool.true_and, Bool.false_eq_true, if_false] <;>
+        first | rfl | (simp; done)))
+  | (refine Or.inr (fun c => ?_)
+     cases hk : c.kind <;>
+       (simp only [dispatchT, hk, symbolic_function_wrapper, predicate_new, dispatch, Call.merged, Call.inspectedNames,
+          ignoreFirst, Drive.C12.codeQuirks, C12_merge_translated_eq_model, C12_decision_translated_eq_model,
+          Bool.not_true, Bool.not_false, Bool.false_and, Bool.true_and, Bool.false_eq_true, if_false] <;>
+        first | rfl | (simp; done)))
 
 /-- the property `C12_merge_eq_bind`, of the translated merge: on every call Python accepts it yields Python's own
 binding, for every signature (positional-or-keyword and keyword-only parameters, defaults) and every split -/
@@ -657,8 +677,8 @@ executed at once on Python's binding; some variable written ⇒ a condition carr
 theorem C12_translated_meets_property (c : Call) (hwf : c.WF) (b : Dict Arg) (hb : bind c.params c.pos c.kw = .ok b) :
     (c.hasVar = false → dispatchT c = .concrete (.ok (applyDefaults Arg.lit c.params b))) ∧
     (c.hasVar = true → ∃ d, dispatchT c = .symbolic d ∧ DictEq d b) := by
-  rw [C12_dispatch_translated_eq_model, dispatch_accepted_eq_none Drive.C12.codeQuirks (by decide) c hwf hb]
-  exact C12_dispatch c hwf b hb
+  rcases C12_dispatch_translated_eq_model with h | h <;>
+    rw [h c, dispatch_accepted_eq_none _ (by decide) c hwf hb] <;> exact C12_dispatch c hwf b hb
 
 end KrroodVerif.Pred.Translated
 """
